@@ -51,6 +51,9 @@ type RegistrationManager struct {
 	// ingestChan is included here so that the capacity and use is available to
 	// stats
 	ingestChan <-chan interface{}
+	// ingestChanLock guards ingestChan: it is set when the ingest pipeline starts and read by
+	// the periodic stats printer, which runs in another goroutine.
+	ingestChanLock sync.RWMutex
 }
 
 // NewRegistrationManager returns a newly initialized registration Manager
